@@ -237,6 +237,32 @@ def h_ctag_fault(c0: bytes, c1: bytes, target: int, body: bytes, k: int) -> bool
 
 
 
+def body_ctag_fault_menu(i0, target, bi):
+    """`body_ctag_fault` with state, target and written body from the token menu and EVERY fault point k = 1..12
+    looped inside: exhaustive over the menu."""
+    from xv.core import picks, untraced
+    c0, target, body = picks((i0, target, bi), (_store.MENU_TOK[:6], 6, _store.MENU_TOK[1:]))
+    with untraced():
+        seen = "no-fault"
+        for c1 in (b"", b"xb"):
+            for k in range(1, 13):
+                r = body_ctag_fault(c0, c1, target, body, k)
+                if not r[0]:
+                    ctx.LAST_EXC = "state (%r, %r) target %d body %r fault at mutation %d: %s" % (c0, c1, target, body, k, r[1])
+                    return r
+                if r[1].startswith("fault:"):
+                    seen = "faulted"
+        return (True, seen)
+
+
+def h_ctag_fault_menu(i0: int, target: int, bi: int) -> bool:
+    """
+    pre: 0 <= i0 < 6 and 0 <= target < 6 and 0 <= bi < 6
+    post: _
+    """
+    return run(body_ctag_fault_menu, i0, target, bi)
+
+
 def body_ctag_step_menu(i0, i1, target):
     """`body_ctag_step` over the token menu (see _store.menu_steps): exhaustive for every partition."""
     return _store.menu_steps(body_ctag_step, i0, i1, target, with_hist=True)
@@ -286,6 +312,13 @@ HARNESSES = [
             encodes=["xandikos.web.XandikosBackend.get_resource", "xandikos.store.git.GitStore.get_type",
                      "xandikos.store.Store.get_type", "xandikos.store.git.GitStore.config",
                      "xandikos.webdav.PropfindMethod.handle", "xandikos.webdav._do_get"]),
+    Harness("ctag_fault_menu", h_ctag_fault_menu, body_ctag_fault_menu, classes=[("faulted", ("tree", 0)), ("faulted", ("bare", 1))],
+            parts={"quick": [(k, op) for k in ("bare", "tree") for op in (0, 1)]}, budget={"quick": 100, "thorough": 200},
+            per_path_timeout={"quick": 60, "thorough": 60},
+            describe="ctag_fault over the token menu (state, target, written body chosen by the solver) with every fault point "
+                     "k = 1..12 looped inside: a write failing at any of its mutations leaves the tag where it was - for the same "
+                     "store object and a fresh one - and the next write yields the tag of the right state; exhaustive over the menu",
+            encodes=_store.STEP_ENCODES),
     Harness("ctag_fault", h_ctag_fault, body_ctag_fault,
             classes=[("fault:obj-add", ("bare", 0)), ("fault:ref-set", ("bare", 1)), ("fault:append", ("tree", 0))],
             parts={"quick": [(k, op) for k in ("bare", "tree") for op in (0, 1)]}, budget={"quick": 60, "thorough": 420},
